@@ -49,7 +49,7 @@ def spaces(tier):
 
     def gen_func():
         U = E.universe("AB", 2)
-        for X in E.lists(U, 3 if q else 4):
+        for X in E.lists(U, 4 if q else 5):
             yield ("func", X)
 
     def gen_free():
@@ -60,7 +60,7 @@ def spaces(tier):
         Space("cdist-of-universe", gen_cdist, "cdist(U,U) in one call: U(AB,5) quick / U(ABC,5) thorough x 27 weight triples in {1,2,3}^3 + %s; U(AB,6|7) x {(1,1,1),(1,2,3)}; Levenshtein class" % (EXTRA_W,), per_case=True),
         Space("condensed-layout-all-lists", gen_layout, "Lists(U(AB,2),4|5) x weights {(1,1,1),(1,2,3),(3,1,2)}: every condensed index, squareform round trip, pdist == upper triangle of cdist", shards=64),
         Space("long-string-boundary-family", gen_long, "lengths %s x shapes {x^n vs y^n, x^n vs '', x^n vs x^(n-1)y, x^n vs x^n} x 3 weight triples" % (LONG,)),
-        Space("functional-pdist-cdist", gen_func, "Lists(U(AB,2),3|4) with a metric encoding (a,b) and a forwarded keyword; default metric"),
+        Space("functional-pdist-cdist", gen_func, "Lists(U(AB,2),4|5) with a metric encoding (a,b) and a forwarded keyword; default metric"),
         Space("free-running-rapidfuzz-threads", gen_free, "cdist(U(AB,4),U(AB,4)) x 3 weight triples with rapidfuzz's own thread pool untouched", per_case=True),
     ]
 
